@@ -7,7 +7,9 @@ Require Import PV.Meta.PegRules PV.Meta.LexPeg PV.Meta.TokBase PV.Meta.TokLex.
 Local Open Scope string_scope.
 Local Open Scope list_scope.
 
-Ltac len := unfold byte in *; repeat rewrite app_length; cbn [List.length]; lia.
+Ltac len := unfold byte in *; repeat (progress (cbn [List.length]; rewrite ?app_length)); cbn [List.length]; lia.
+(* right-nest the appends of a hypothesis about the text, singletons as conses *)
+Ltac norm H := repeat (progress (rewrite <- ?app_assoc in H; cbn [app] in H)).
 
 Section Ops.
 Variable w : list byte.
